@@ -14,6 +14,10 @@ CLAIMED = {
              text="The invariant is model-checked on every reachable key state of the bounded lattice, and the same predicate is evaluated on the real retained key material and on exported/imported key state at every step.",
              note="Relies on the read-only hook reporting the retained (prefix, seed) list; seeds are compared by value with the fresh key's seeds (ideal PRG: no accidental collisions).",
              ref="5/C11"),
+ "C14": dict(level="model_checking", technique="TLA+ PPOPRF.tla (composed with GGM.tla) model-checked by TLC over all histories of puncture/clone/export+import/new-server up to a depth bound; per-state successor and answer tables replayed by BFS on real ppoprf::Server instances; random 200-step histories trace-validated (Trace_PPOPRF)",
+             text="Every interleaving of the state-changing calls up to the bound is enumerated in the model and each transition is executed on real server instances with a full observation of every live instance after every step; long random histories are validated as behaviours of the same specification.",
+             note="History depth 4 (quick) / 5 (thorough) with <=3 instances and a 4/6-tag universe are exhaustive; beyond that sampled. Group/PRF values ideal: answers compared by value with the first answer seen for (key, tag, point).",
+             ref="5/C14"),
 }
 NA_REASON = "check not built yet in this round (planned: see DESIGN.md section 5); not claimed until its machinery exists"
 
